@@ -77,8 +77,14 @@ def close(a, b):
 LEAN_BASES = [0, 2.5, 2 ** 40]
 
 
+# near ties of large magnitude (relative distance far below any float tolerance): an optimum must still be told from its neighbour
+NEAR = [(2 ** 40, 2 ** 40 + 1), (3 * 10 ** 9, 3 * 10 ** 9 - 1), (4e12, 4e12 + 3), (-(2 ** 40), -(2 ** 40) - 1), (2 ** 31, 2 ** 31 + 1), (1e15, 1e15 + 1)]
+
+
 def fam_size(kind, n):
     k = len(E)
+    if kind == "near":
+        return 2 * len(NEAR) * ((2 ** n - 2) if n <= 8 else n)
     if kind == "full":
         return k ** n
     if kind == "pair":
@@ -91,6 +97,16 @@ def fam_iter(kind, n):
     lean: constant tables + 16 cyclic ramps through E + every table 'all cells p except one cell q' (p in LEAN_BASES)."""
     if kind == "full":
         yield from itertools.product(E, repeat=n)
+        return
+    if kind == "near":  # every two-valued table over a near pair (n <= 8 cells), else a single deviating cell
+        for p, q in NEAR:
+            for a, b in ((p, q), (q, p)):
+                if n <= 8:
+                    for pat in range(1, 2 ** n - 1):
+                        yield tuple(b if (pat >> c) & 1 else a for c in range(n))
+                else:
+                    for pos in range(n):
+                        yield tuple(b if c == pos else a for c in range(n))
         return
     for e in E:
         yield (e,) * n
@@ -295,7 +311,8 @@ def check_proj(part, scope, flat, x, mode):
         d = dict(zip(names, a))
         col = [ref[tuple(xv if v == x else d[v] for v in scope)] for xv in DOMS[x]]
         exp = opt(col)
-        if not close(got[a], exp):
+        # min / max return one of the entries: exact comparison (a relative tolerance would hide a near tie of large magnitude)
+        if not (close(got[a], exp) and float(got[a]) == float(exp)):
             bad.append((d, got[a], exp, col))
             # every value along x is beyond the int32 range and the int32 bound itself comes back
             if (mode == "min" and got[a] == 2 ** 31 - 1 and exp > got[a]) or (mode == "max" and got[a] == -(2 ** 31) and exp < got[a]):
@@ -398,6 +415,8 @@ def plan(tier):
         kind = pick_single(ncells(scope), caps["proj"])
         jobs.append(("proj", i, (scope, kind)))
         text.append(f"proj{scope}:{kind}")
+        jobs.append(("proj", 100 + i, (scope, "near")))
+        text.append(f"proj{scope}:near")
     for i, (s1, s2) in enumerate(JOIN_SCOPES + (JOIN_SCOPES_THOROUGH if thorough else [])):
         k1, k2 = pick_pair(ncells(s1), ncells(s2), caps["join"])
         jobs.append(("join", i, (s1, k1, s2, k2)))
@@ -412,7 +431,8 @@ def run(ctx):
     ctx.rule = (
         f"entries/set values E={[enc(e) for e in E]}; variables {DOMS}. For every listed scope (or ordered scope pair) every "
         "table of the stated family is built as a real NAryMatrixRelation (family = the richest of: full = all tables over E; "
-        "pair = constant tables + all tables using exactly two entries of E; lean = constants + 16 cyclic ramps + all "
+        "pair = constant tables + all tables using exactly two entries of E; near (projection only, in addition) = all two-valued tables over pairs of "
+        f"large near-equal entries {NEAR}, compared exactly; lean = constants + 16 cyclic ramps + all "
         f"one-cell-deviating tables, whose size fits the per-scope cap {CAPS[ctx.tier]}; for join the larger family is "
         "stepped down first). set: every table x every assignment x {list, dict, dict with reversed key order} x every "
         "value of E; projection: every table x every scope variable x {min,max}; join: every table pair. Every result is "
